@@ -403,6 +403,11 @@ def check(run):
     # validated shreds into InvalidShred (parent switch rules) refuse only what a correct leader never produces
     from . import C13
     C13.ob_content_gates(run, "O12.9")
+    # "a correct leader is never flagged": a set of shreds that each passed ValidatedShred::try_new must not be refused by the layout check in front of
+    # the decoder for a reason an attacker controls (anything but position / kind / size) - a failed deshred is blamed on the leader
+    from . import C11 as _C11
+    _C11.ob_validated_set(run, "O12.10")
+    C13.ob_error_mapping(run, "O12.11")
     if run.tier == "thorough":
         witness(run, "O12.1w")
 
